@@ -73,7 +73,10 @@ func (t Templates) ServeHTTP(w http.ResponseWriter, r *http.Request) (int, error
 		// come in a content coding (a precompressed copy of the file) either.
 		source := r
 		for _, ext := range rule.Extensions {
-			if ext == path.Ext(fpath) {
+			// (a directory is answered with its index page, which may be a
+			// template: whether it is shows only in the response, so the
+			// directory is asked for like a template)
+			if ext == path.Ext(fpath) || strings.HasSuffix(fpath, "/") {
 				source = new(http.Request)
 				*source = *r
 				source.Header = r.Header.Clone()
